@@ -21,8 +21,8 @@ MORE = {
              "its program's value, restores the allocator counts to the checkpoint taken at entry, charges exactly the declared cost unless "
              "the guard is the grandfathered PreHardFork set, and with LIMIT_SOFTFORK no guard is entered at nesting depth >= 20; "
              "uint_atom (declared cost / extension decoding) is proved against its specification.",
-        note=TB + "Composition assumption H (listed): stack entries below a guard's result and pending checkpoints predate the guard "
-             "(history-only; what restore_checkpoint does with them is proved). Dialect::softfork_extension / op are trait contracts.",
+        note=TB + "That stack entries below a guard's result and all pending checkpoints predate the guard's checkpoint is PROVED from the "
+             "checkpoint invariant cpinv carried by every interpreter step (formerly assumption H). Dialect::softfork_extension / op are trait contracts.",
         tech="contract-based deductive verification (Verus): postconditions over the interpreter state (stacks, guard stack, allocator counts)",
         ref="4/C31"),
     "C04": dict(
@@ -31,7 +31,7 @@ MORE = {
              "the same tree as the one passed in; checkpoint_node_status classifies exactly; the RestoreAllocator arm of run_program keeps the "
              "interpreter invariant. That a whole run with and without ENABLE_GC gives the same outcome is the composition of these "
              "per-step facts (relational, not mechanised).",
-        note=TB + "Composition assumption H (listed) at the RestoreAllocator arm; gc_candidate is a trait contract.",
+        note=TB + "The RestoreAllocator arm's history facts come from the proved checkpoint invariant cpinv (no assumption); gc_candidate is a trait contract.",
         tech="contract-based deductive verification (Verus): value-preserving-restore contract (counts, frame, tree equality)",
         ref="4/C04"),
     "C05": dict(
